@@ -183,7 +183,7 @@ fn serve_script(s: &Serve, header_len: u64) -> Script {
                 _ => Action { body: Body::Empty, ..Default::default() },
             };
             let when = if *header { When::Nth(*nth as usize % 2) } else { When::NthData(*nth as usize) };
-            Script { rules: vec![(when, act)], data_from: header_len }
+            Script { rules: vec![(when, act)], data_from: header_len, max_requests: 0 }
         }
         _ => Script::default(),
     }
